@@ -257,7 +257,9 @@ def c11_leaf(rng, doc=None):
         finally:
             c17.PARTS_GEN[0] = None
     if r < 0.35 and rec["fn"] in gen.VALUE1:
-        lit = rng.choice([{"path": ["a", 0]}, {"path.length": ["x"], "b": 1}, {"a": {"path": [1]}}, {"pathological": 1}])
+        lit = rng.choice([{"path": ["a", 0]}, {"path.length": ["x"], "b": 1}, {"a": {"path": [1]}}, {"pathological": 1},
+                          {"path": {"path": 1}}, {"path.x": {"path": [1]}, "b": {"path.first": ["a"]}},
+                          {"a": {"path": {"path": ["z"]}}}, [{"path": ["a"]}, {"b": {"path": [2]}}], {"b": [{"path": ["a"]}]}])
         rec = dict(rec, actuals=[lit], akw={})
     return ("leaf", rec)
 
